@@ -13,6 +13,7 @@ import (
 	"fmt"
 	"math/rand"
 	"os"
+	"runtime"
 	"sort"
 	"time"
 
@@ -434,6 +435,8 @@ func clientSize(t *wirecodec.Table, sv *sizeVec, o *out) {
 		return
 	}
 	read := cliEnd.R.NRead - before
+	// (root must stay reachable up to here: its finalizer clunks the fid, and that call would read on)
+	runtime.KeepAlive(root)
 	if sv.Accept {
 		if sv.Size >= 7+153 && gerr != nil {
 			o.Findings = append(o.Findings, fmt.Sprintf("%s: rejected (%v); a frame within min(msize, 4 MiB) must be read", desc, gerr))
